@@ -240,13 +240,13 @@ void ExecImpl::step(const Op& op, bool nested) {
 // ---------------- Stats ----------------
 #define SIM_STAT_FIELDS(X) \
   X(nested_ops) X(calls_accepted) X(calls_rejected) X(f_clause_throw) X(f_fatal_unwind) X(f_reentry) X(f_owner_death) \
-  X(f_abandon) X(f_ctor_throw) X(f_relocate) X(f_reporter_swap) X(f_tracer_nest) X(relax_weak_call) X(relax_maybe_named) \
+  X(f_abandon) X(f_unwinding_death) X(f_ctor_throw) X(f_relocate) X(f_reporter_swap) X(f_tracer_nest) X(relax_weak_call) X(relax_maybe_named) \
   X(relax_monitor_listing) X(relax_forbid_seq) X(desynced) X(p_multi_match) X(p_older_took_newer_saturated) \
   X(p_older_took_newer_blocked) X(p_cost_tie) X(p_forbid_shadows_allow) X(p_mock_died_pending) X(p_nested_call) \
   X(p_saturated_nomatch) X(p_seq_mismatch) X(p_passed_entry) X(p_release_unfulfilled) X(p_release_named) \
   X(p_moved_mock_call) X(p_seq_destroy_nonempty) X(p_monitor_ok) X(p_monitor_unexpected) X(p_monitor_still_alive) \
   X(p_monitor_seq_violation) X(p_with_rejects) X(p_lr_differs) X(p_trace_records) X(p_ok_reports) X(p_rt_inverted) \
-  X(p_multi_monitor) X(p_assign_watched) X(p_seq_taken_over) X(p_watched_mock_death) X(p_ok_reporter_op) X(flag_observations)
+  X(p_multi_monitor) X(p_assign_watched) X(p_seq_taken_over) X(p_watched_mock_death) X(p_ok_reporter_op) X(p_call_in_handler) X(flag_observations)
 
 void Stats::add(const Stats& o) {
   for (int i = 0; i < OP_KIND_COUNT; ++i) ops[i] += o.ops[i];
